@@ -10,7 +10,7 @@ from . import text as T
 from . import core as G
 
 COMMENT_BODIES = ["c", "a=b", "x => y", "1, 2", "{", "}", "\"quoted\"", "é ☃ 😀", "let z = 1", "", "/ slash", "= = =",
-                  "fun f() {", "arguments: none", "tab\there"]
+                  "fun f() {", "arguments: none", "tab\there", ")=", ") = 1", "(", "]", "> ="]
 GAPS = [" ", " ", "  ", "\n", "\n  ", "\n    ", "\n\n", " \t", "\n\t", "   \n"]
 EXTRA_STATEMENTS = [
     'let ml_{n} = "first line\n  second line\n"',
@@ -35,6 +35,12 @@ EXTRA_STATEMENTS = [
     'while False {{ }}',
     'for i_{n} in [1] {{ i_{n} }}',
     '{{ 1 2 }}',
+    'let (p_{n}, q_{n} ) = (1, 2)',
+    'let (p_{n},\n  q_{n}\n)=(1, 2)',
+    'let (p_{n}, q_{n} // )=\n  )=(1, 2)',
+    'let (p_{n}, q_{n}, // ) = x\n)  =  (1, 2)',
+    'let v_{n} // = 1\n  = 2',
+    'let w_{n}: Int // )=\n  =3',
 ]
 
 
